@@ -94,7 +94,11 @@ def eliot_friendly_generator_function(original):
                     if ok:
                         value_out = gen.send(value_in)
                     else:
-                        value_out = gen.throw(*value_in)
+                        # Single-argument form: the exception carries its
+                        # traceback, and the (type, value, traceback) form
+                        # is deprecated since Python 3.12 - its warning is an
+                        # exception when warnings are errors.
+                        value_out = gen.throw(value_in[1])
                     # We have obtained a value from the generator.  In
                     # giving it to us, it has given up control.  Note this
                     # fact here.  Importantly, this is within the
